@@ -24,7 +24,25 @@ start line, header block, length or number is ever chosen by the checker; branch
   (definition of dict() over an iterable of pairs); `d = {}; for x in it: d[k(x)] = v(x)` equals `{k(x): v(x) for x in it}`
   when the store is the only write to `d` and is unconditional in a for-loop without break/continue that dominates the
   use (checked on the CFG, 2); `bytes(b)` of a bytes value is an equal value; `list/tuple/iter(g)` preserve the elements
-  and order of `g`.
+  and order of `g`; `len(<constant>)` is folded (6).
+  *Gated merge* (2, 3): when exactly two definitions of a local reach a use and one `if` statement I dominates the use such
+  that, on every path from I to the use that does not return to I, the last definition is the first one after the true
+  edge and the second one after the false edge (dominance and path queries on the CFG, `_gate_of`), the value is
+  `D_true if test(I) else D_false`; a conditional expression is the same thing.  Such a selection is turned into ONE term
+  only by the *find/partition lemma* below; any other selection stays the unordered merge `phi`.
+  *find/partition lemma* (4, stated in `_occurrence_test`, `_occ_merge`, `_mk_slice_terms`): for a non-empty constant
+  separator s, `x.find(s)` / `x.rfind(s)` is -1 exactly when s does not occur in x and >= 0 otherwise (so `== -1`, `< 0`,
+  `<= -1` and their negations, and `s in x`, are occurrence tests); where s occurs, `find/index` is the index of the first
+  and `rfind/rindex` of the last occurrence.  With j = ("occ", "find", x, s) = "index of the first occurrence, else
+  len(x)": `x[:j] == x.partition(s)[0]` and `x[j + len(s):] == x.partition(s)[2]`, because partition splits at the first
+  occurrence and returns (x, b"", b"") without one, `x[:len(x)] == x` and `x[len(x) + k:]` is empty.  Accordingly the
+  selections `len(x) if absent else x.find(s)`, `x if absent else x[:x.find(s)]`, `b"" if absent else x[x.find(s) + len(s):]`
+  (also element-wise on tuples) are the terms j, `partition[0]`, `partition[2]`.  Likewise `x.split(s, 1)` is `[x]`
+  without and `[before, after]` the first occurrence with one: its element 0 is `partition[0]`, `len(..) == 2` (`> 1`,
+  `!= 1`, ..) is an occurrence test, and `b"" if absent else x.split(s, 1)[1]` is `partition[2]`.  Slice composition:
+  `x[a:][b:] == x[a + b:]` for a, b >= 0 (an `occ` index is never negative).  A slice bound that is an unordered merge
+  (no tracked condition) is `opaque` -> the comparison is undecided, not violated; a bound that is a plain `find`
+  without fallback, a wrong offset or the `rfind` variant is an exact term different from the demanded one -> violated.
 * R1 (body / first_line): 3 - structural equality of the field's term with the demanded term
   `<arg>.partition(CRLFCRLF)[2]` resp. `ws-split(<arg>.partition(CRLFCRLF)[0].partition(CRLF)[0])`; 1 to locate the
   constructions.  Lemma: `x.rstrip()/.strip()/.lstrip()` before an argument-less `.split()` does not change the tokens
@@ -32,7 +50,9 @@ start line, header block, length or number is ever chosen by the checker; branch
 * R2 (length guard, raise class): 2 (dominating branch conditions on the CFG), 4 (interval of `len(T)` from the
   dominating `len(T) <op> k` facts, T identified by term equality - 3), 1 (try/except shape for the EAFP form).
   Lemma: unpacking a sequence into n plain targets succeeds iff its length is n, and otherwise raises ValueError; access
-  to constant index i needs `len > i` (i >= 0) resp. `len >= -i` (i < 0).
+  to constant index i needs `len > i` (i >= 0) resp. `len >= -i` (i < 0); a split at an explicit separator has at least
+  one piece (only the whitespace split can be empty); the test of a conditional expression holds in its first arm and
+  fails in its second.
 * R3 (start-line fields, params, headers binding): 3 - structural comparison of field terms ("item i of one and the same
   token-sequence term", "`.path` / `.query` of one and the same `urlparse` term", "map over `parse_qsl` pairs"); 1.
   `.encode/.decode/str(x, enc)/bytes(x, enc)` steps are peeled structurally ("re-coded only"), never executed.
@@ -40,7 +60,9 @@ start line, header block, length or number is ever chosen by the checker; branch
   return statements / fall-off-end from the CFG), 3 (terms of the conditions), 6 (folding of the *reference* constant
   `b"HTTP/"` under `upper`/`lower` to compare it with the literal in the code).  Lemma: `l.upper().startswith(K.upper())`,
   `l.lower().startswith(K.lower())`, `l[:len K].upper() == K.upper()` and `l.upper()[:len K] == K.upper()` all state
-  "l starts with K ignoring ASCII case" (bytes case mapping is per byte and length preserving).
+  "l starts with K ignoring ASCII case" (bytes case mapping is per byte and length preserving); the `!=` spelling of the
+  two slice forms (and `not in` a one-element display, which is `!=` its element) states the negation, so it counts as
+  the same test with the polarity of the branch edge inverted.
 * R5 (header map): 3 - structural equality of the map term's iterable / key / value with
   `rest.split(CRLF)`, `$.partition(b": ")[0]`, `$.partition(b": ")[2]`; initial mapping must be the empty display.
 * R6 (escape set): the engine's `effects.check_escape` - may-raise set over the call graph (1) with handlers / guards on
@@ -56,6 +78,7 @@ import ast
 
 from csverif import effects
 from csverif.astutil import body_walk, const_eval, dotted, fn_calls, kwarg, NotConst, params, src, statements
+from csverif.cfg import ENTRY
 from csverif.q import FuncView, dominating_conditions, raise_class, reaching_defs
 
 CRLF = b"\r\n"
@@ -78,7 +101,7 @@ def _c(node):
 # ("tuple", t...) ("item", base, i) ("index", base, idx) ("slice", base, lo, hi, step) ("meth", name, recv, args, kwargs)
 # ("call", name, args, kwargs) ("ctor", class, n) ("attr", name, base) ("gen", iter, elt) ("map", iter, key, val, init)
 # ("dict", items) ("elem",) ("iterelem", iter) ("phi", alts) ("cmp", op, l, r) ("not", t) ("and"|"or", ts)
-# ("binop", op, l, r) ("opaque", why)
+# ("binop", op, l, r) ("opaque", why) ("occ", "find"|"rfind", x, sep): index of the first/last occurrence of sep in x, len(x) if none
 def _opaque(why):
     return ("opaque", why)
 
@@ -121,9 +144,21 @@ def _as_tuple(base):
     return None
 
 
+def _split_once(t):
+    """t == x.split(s, 1) / x.split(s, maxsplit=1) with a non-empty constant s -> (x, s); else None."""
+    if t[0] == "meth" and t[1] == "split" and t[3] and t[3][0][0] == "const" and isinstance(t[3][0][1], (bytes, str)) and t[3][0][1]:
+        if (t[3][1:], t[4]) in (((("const", 1),), ()), ((), (("maxsplit", ("const", 1)),))):
+            return t[2], t[3][0]
+    return None
+
+
 def _mk_item(base, i):
     if base[0] == "phi":
         return _mk_phi([_mk_item(a, i) for a in base[1]])
+    if i == 0 and _split_once(base) is not None:
+        # lemma: x.split(s, 1) is [x] without an occurrence of s and [before, after] the first one otherwise; its first
+        # element is therefore x.partition(s)[0] in both cases
+        return ("part", "partition") + _split_once(base) + (0,)
     elts = _as_tuple(base)
     if elts is not None and isinstance(i, int) and -len(elts) <= i < len(elts):
         return elts[i]
@@ -131,6 +166,11 @@ def _mk_item(base, i):
 
 
 def _mk_slice(base, lo, hi, step):
+    if base[0] == "slice" and len(base) == 5 and isinstance(base[2], tuple) and base[3] == ("const", None) and base[4] in (("const", None), ("const", 1)):
+        # lemma: x[a:][b:] == x[a + b:] for a >= 0 and b >= 0; an ("occ", ..) index is never negative
+        off = _occ_offset(base[2])
+        if off is not None and off[1] >= 0 and type(lo) is int and lo >= 0 and hi is None and step in (None, 1):
+            return _mk_slice_terms(base[1], ("binop", "Add", off[0], ("const", off[1] + lo)), ("const", None), ("const", None))
     elts = _as_tuple(base)
     if elts is not None and all(x is None or isinstance(x, int) for x in (lo, hi, step)):
         try:
@@ -138,6 +178,136 @@ def _mk_slice(base, lo, hi, step):
         except ValueError:
             pass
     return ("slice", base, lo, hi, step)
+
+
+def _occ_offset(t):
+    """t == <occ> + n with a constant int n (either operand order) -> (occ term, n); a bare occ term -> (occ, 0)."""
+    if t[0] == "occ":
+        return t, 0
+    if t[0] == "binop" and t[1] == "Add":
+        for a, b in ((t[2], t[3]), (t[3], t[2])):
+            if a[0] == "occ" and b[0] == "const" and type(b[1]) is int:
+                return a, b[1]
+    return None
+
+
+def _mk_slice_terms(base, lo, hi, step):
+    """Slice whose bounds are terms.  Constant bounds -> `_mk_slice`.  Lemma (find/partition): for a non-empty separator s
+    and j = ("occ", "find", x, s) = the index of the first occurrence of s in x, or len(x) if there is none,
+    `x[:j] == x.partition(s)[0]` and `x[j + len(s):] == x.partition(s)[2]`  (partition and find both take the first
+    occurrence from the left; without one partition gives (x, b"", b""), and x[:len(x)] == x, x[len(x) + k:] is empty)."""
+    parts = (lo, hi, step)
+    if all(p[0] == "const" and (p[1] is None or type(p[1]) is int) for p in parts):
+        return _mk_slice(base, *[p[1] for p in parts])
+    if step in (("const", None), ("const", 1)):
+        if lo in (("const", None), ("const", 0)) and hi[0] == "occ" and hi[1] == "find" and hi[2] == base:
+            return ("part", "partition", base, hi[3], 0)
+        off = _occ_offset(lo) if hi == ("const", None) else None
+        if off is not None and off[0][1] == "find" and off[0][2] == base:
+            sep = off[0][3]
+            if sep[0] == "const" and isinstance(sep[1], (bytes, str)) and sep[1] and off[1] == len(sep[1]):
+                return ("part", "partition", base, sep, 2)
+    return ("slice", base, lo, hi, step)
+
+
+def _rewrite(t, fn):
+    """Bottom-up rewriting of a term: children first, then the simplifying constructors, then `fn` on the rebuilt node."""
+    if not isinstance(t, tuple) or not t:
+        return t
+    if isinstance(t[0], str) and t[0] in ("const", "param", "global", "opaque", "elem", "ctor"):
+        return fn(t)
+    k = tuple(_rewrite(x, fn) for x in t)
+    if k[0] == "item" and len(k) == 3:
+        k = _mk_item(k[1], k[2])
+    elif k[0] == "slice" and len(k) == 5:
+        if all(x is None or isinstance(x, int) for x in k[2:]):
+            k = _mk_slice(k[1], *k[2:])
+        elif all(isinstance(x, tuple) for x in k[2:]):
+            k = _mk_slice_terms(k[1], *k[2:])
+    return fn(k) if isinstance(k[0], str) else k
+
+
+def _occurrence_test(cond):
+    """(x, s, present) if the condition holds exactly when the non-empty constant s occurs in x (present=True) or exactly
+    when it does not (present=False); None for any other condition.  Facts used: `x.find(s)` / `x.rfind(s)` is -1 when
+    there is no occurrence and >= 0 otherwise; `s in x` is the occurrence test itself."""
+    pol = True
+    while cond[0] == "not":
+        cond, pol = cond[1], not pol
+    if cond[0] != "cmp":
+        return None
+    op, l, r = cond[1], cond[2], cond[3]
+    if op in ("in", "not in"):
+        x, sep, present = r, l, op == "in"
+    else:
+        if op not in _MIRROR:
+            return None
+        if l[0] == "const":
+            op, l, r = _MIRROR[op], r, l
+        if not (r[0] == "const" and type(r[1]) is int):
+            return None
+        once = _split_once(l[2][0]) if l[0] == "call" and l[1] == "len" and len(l[2]) == 1 and not l[3] else None
+        if once is not None:
+            # len(x.split(s, 1)) is 2 when s occurs in x and 1 when it does not
+            x, sep = once
+            if (op, r[1]) in (("==", 1), ("<", 2), ("<=", 1), ("!=", 2)):
+                present = False
+            elif (op, r[1]) in (("==", 2), (">", 1), (">=", 2), ("!=", 1)):
+                present = True
+            else:
+                return None
+        elif l[0] == "meth" and l[1] in ("find", "rfind") and len(l[3]) == 1 and not l[4]:
+            if (op, r[1]) in (("==", -1), ("<", 0), ("<=", -1)):
+                present = False
+            elif (op, r[1]) in (("!=", -1), (">=", 0), (">", -1)):
+                present = True
+            else:
+                return None
+            x, sep = l[2], l[3][0]
+        else:
+            return None
+    if not (sep[0] == "const" and isinstance(sep[1], (bytes, str)) and sep[1]):
+        return None
+    return x, sep, present == pol
+
+
+def _occ_merge(x, sep, p, a):
+    """The value that is `p` when `sep` occurs in `x` and `a` when it does not, as ONE term - or None if the pair is not
+    one of the forms below.  In the branch where the separator occurs `x.find(sep)` / `x.index(sep)` are the first and
+    `x.rfind(sep)` / `x.rindex(sep)` the last occurrence, i.e. the value of the corresponding ("occ", ..) term; in the other
+    branch that term is len(x), the first partition component is x itself and the third is empty."""
+    if p[0] == "tuple" and a[0] == "tuple" and len(p) == len(a):
+        parts = [_occ_merge(x, sep, pi, ai) for pi, ai in zip(p[1:], a[1:])]
+        return None if any(q is None for q in parts) else ("tuple",) + tuple(parts)
+
+    def occ(n):
+        if n[0] == "meth" and n[1] in ("find", "index", "rfind", "rindex") and n[2] == x and n[3] == (sep,) and not n[4]:
+            return ("occ", "rfind" if n[1].startswith("r") else "find", x, sep)
+        if n[0] == "item" and n[2] in (1, -1) and _split_once(n[1]) == (x, sep):
+            return ("part", "partition", x, sep, 2)   # the second of the two pieces is what follows the first occurrence
+        return n
+
+    P = _rewrite(p, occ)
+    if P == a:
+        return P
+    if P[0] == "occ" and P[2] == x and P[3] == sep and a == ("call", "len", (x,), ()):
+        return P
+    if P[0] == "part" and P[1] == "partition" and P[2] == x and P[3] == sep:
+        if (P[4] == 0 and a == x) or (P[4] == 2 and a == ("const", sep[1][:0])):
+            return P
+    return None
+
+
+def _mk_gated(cond, t, e):
+    """`t if cond else e` (conditional expression, or two definitions selected by one dominating `if`): one exact term when
+    the condition is an occurrence test and the pair matches the find/partition lemma, else the plain merge of both."""
+    g = _occurrence_test(cond)
+    if g is not None:
+        x, sep, present = g
+        m = _occ_merge(x, sep, t, e) if present else _occ_merge(x, sep, e, t)
+        if m is not None:
+            return m
+    return _mk_phi([t, e])
 
 
 def _subst(t, repl):
@@ -150,6 +320,8 @@ def _subst(t, repl):
         return _mk_item(_subst(t[1], repl), t[2])
     if t and t[0] == "slice" and all(x is None or isinstance(x, int) for x in t[2:]):
         return _mk_slice(_subst(t[1], repl), *t[2:])
+    if t and t[0] == "slice" and len(t) == 5 and all(isinstance(x, tuple) for x in t[2:]):
+        return _mk_slice_terms(*[_subst(x, repl) for x in t[1:]])
     if t and t[0] in ("gen", "map"):
         # the element marker inside the element expressions belongs to that inner comprehension
         return (t[0], _subst(t[1], repl)) + t[2:]
@@ -205,7 +377,10 @@ def _show(t, depth=0):
     if h in ("item", "index"):
         return f"{s(t[1])}[{t[2] if h == 'item' else s(t[2])}]"
     if h == "slice":
-        return f"{s(t[1])}[{t[2]}:{t[3]}:{t[4]}]"
+        b = lambda x: s(x) if isinstance(x, tuple) and x != ("const", None) else "" if x is None or isinstance(x, tuple) else str(x)
+        return f"{s(t[1])}[{b(t[2])}:{b(t[3])}" + (f":{b(t[4])}]" if b(t[4]) else "]")
+    if h == "occ":
+        return f"<index of the {'first' if t[1] == 'find' else 'last'} {s(t[3])} in {s(t[2])}, else its length>"
     if h == "meth":
         return f"{s(t[2])}.{t[1]}({', '.join([s(a) for a in t[3]] + [f'{k}={s(v)}' for k, v in t[4]])})"
     if h == "call":
@@ -288,9 +463,9 @@ class _Sym:
             base = self.ev(e.value, at, env, d1)
             if isinstance(e.slice, ast.Slice):
                 parts = [self.ev(x, at, env, d1) if x is not None else ("const", None) for x in (e.slice.lower, e.slice.upper, e.slice.step)]
-                if all(p[0] == "const" and (p[1] is None or type(p[1]) is int) for p in parts):
-                    return _mk_slice(base, *[p[1] for p in parts])
-                return ("slice", base) + tuple(parts)
+                # a bound merged from several definitions without a tracked selecting condition is not modelled
+                parts = [_opaque("slice bound merged from several paths") if any(x and x[0] == "phi" for x in _subterms(p)) else p for p in parts]
+                return _mk_slice_terms(base, *parts)
             idx = self.ev(e.slice, at, env, d1)
             if idx[0] == "const" and type(idx[1]) is int:
                 return _mk_item(base, idx[1])
@@ -298,7 +473,7 @@ class _Sym:
         if isinstance(e, ast.Call):
             return self._call(e, at, env, d1)
         if isinstance(e, ast.IfExp):
-            return _mk_phi([self.ev(e.body, at, env, d1), self.ev(e.orelse, at, env, d1)])
+            return _mk_gated(self.ev(e.test, at, env, d1), self.ev(e.body, at, env, d1), self.ev(e.orelse, at, env, d1))
         if isinstance(e, ast.Compare):
             if len(e.ops) != 1 or type(e.ops[0]) not in _CMP:
                 return _opaque("chained comparison")
@@ -374,6 +549,8 @@ class _Sym:
                 if args[0][0] in ("dict", "map"):
                     return args[0]
                 return _mk_map(args[0], _mk_item(ELEM, 0), _mk_item(ELEM, 1))
+        if name == "len" and len(args) == 1 and not kwargs and args[0][0] == "const" and isinstance(args[0][1], (bytes, str)):
+            return ("const", len(args[0][1]))   # constant folding
         if name == "bytes" and len(args) == 1 and not kwargs and args[0][0] == "part":
             return args[0]   # bytes(<bytes>) is a copy of the same value
         if name in ("list", "tuple", "iter") and len(args) == 1 and not kwargs and args[0][0] in ("gen", "tuple"):
@@ -401,7 +578,58 @@ class _Sym:
                 alts.append(self._def_term(name, st, v, at, depth))
             finally:
                 self._active.discard(key)
+        if len(rd) == 2 and not any(_has_opaque(a) for a in alts):
+            g = self._gate_of(name, rd, at)
+            if g is not None:
+                branch, i_true, i_false = g
+                return _mk_gated(self.ev(branch.test, branch, {}, depth), alts[i_true], alts[i_false])
         return _mk_phi(alts)
+
+    def _def_node(self, st):
+        if st is self.fn:
+            return ENTRY
+        s = st if isinstance(st, ast.stmt) else self.fv.stmt_of(st)
+        if s is None or not self.cfg.has(s):
+            return None
+        return self.cfg.edge_node(s, "iter") if isinstance(s, (ast.For, ast.AsyncFor)) else self.cfg.node(s)
+
+    def _gate_of(self, name, rd, at):
+        """Two definitions of `name` reach `at`: find the `if` statement I that selects between them, i.e. I dominates the
+        use and, on every path from I to the use that does not come back to I, the last definition is the one (z) when the
+        test was true and the other one (w) when it was false.  Returns (I, index of the true-side definition, index of
+        the false-side definition) or None.  Pure CFG reasoning: dominance and path queries."""
+        cfg = self.cfg
+        use = self.fv.stmt_of(at)
+        nodes = [self._def_node(st) for st, _v in rd]
+        if use is None or not cfg.has(use) or None in nodes or nodes[0] == nodes[1]:
+            return None
+        u = cfg.node(use)
+        if u in nodes:
+            return None
+        for branch in statements(self.fn):
+            if not isinstance(branch, ast.If) or not cfg.has(branch):
+                continue
+            ni = cfg.node(branch)
+            if ni == u or not cfg.dominates(ni, u):
+                continue
+            at_branch = [self._def_node(st) for st, _v in reaching_defs(self.ctx, self.f, name, branch)]
+
+            def last_def_is(edge, z, w):
+                # no path edge ->* use (not revisiting I) on which the other definition is the last one
+                if w != ni and cfg.reaches(edge, w, avoiding=[ni]) and cfg.reaches(w, u, avoiding=[ni, z]):
+                    return False
+                if z == ni:
+                    return True   # defined by the test itself (assignment expression)
+                if not cfg.reaches(edge, u, avoiding=[z, ni]):
+                    return True   # every such path executes z
+                # z is the only definition that arrives at I, and it is not executed again between I and the use
+                return at_branch == [z] and not (cfg.reaches(edge, z, avoiding=[ni]) and cfg.reaches(z, u, avoiding=[ni]))
+
+            te, fe = cfg.edge_node(branch, "true"), cfg.edge_node(branch, "false")
+            for x, y in ((0, 1), (1, 0)):
+                if last_def_is(te, nodes[x], nodes[y]) and last_def_is(fe, nodes[y], nodes[x]):
+                    return branch, x, y
+        return None
 
     def _def_term(self, name, st, v, at, depth):
         if st is self.fn:
@@ -533,27 +761,33 @@ def _len_fact(atom, pol):
     return l[2][0], lo, hi
 
 
-def _is_prefix_test(atom, lines):
-    """Case-insensitive `HTTP/` prefix test on one of the start-line terms."""
+def _prefix_test(atom, lines):
+    """Case-insensitive `HTTP/` prefix test on one of the start-line terms: True if the atom holds exactly when the line
+    has the prefix, False if it holds exactly when the line does not have it (`!=` form), None if it is no such test."""
     def folded(t, want):
         # <line>.upper() / .lower() ; want = the constant compared with
         return t[0] == "meth" and t[1] in ("upper", "lower") and not t[3] and not t[4] and want == getattr(b"HTTP/", t[1])()
 
     if atom[0] == "meth" and atom[1] == "startswith" and len(atom[3]) == 1 and not atom[4] and atom[3][0][0] == "const":
         r = atom[2]
-        return folded(r, atom[3][0][1]) and r[2] in lines
-    if atom[0] == "cmp" and atom[1] == "==":
+        return True if folded(r, atom[3][0][1]) and r[2] in lines else None
+    if atom[0] == "cmp" and atom[1] in ("in", "not in") and atom[3][0] == "tuple" and len(atom[3]) == 2:
+        atom = ("cmp", "==" if atom[1] == "in" else "!=", atom[2], atom[3][1])   # membership in a one-element display
+    if atom[0] == "cmp" and atom[1] in ("==", "!="):
+        sign = atom[1] == "=="
         l, r = atom[2], atom[3]
         if l[0] == "const":
             l, r = r, l
         if r[0] != "const" or not isinstance(r[1], bytes):
-            return False
+            return None
         if folded(l, r[1]):
             inner = l[2]
-            return inner[0] == "slice" and inner[2] in (None, 0) and inner[3] == 5 and inner[4] in (None, 1) and inner[1] in lines
+            if inner[0] == "slice" and inner[2] in (None, 0) and inner[3] == 5 and inner[4] in (None, 1) and inner[1] in lines:
+                return sign
         if l[0] == "slice" and l[2] in (None, 0) and l[3] == 5 and l[4] in (None, 1):
-            return folded(l[1], r[1]) and l[1][2] in lines
-    return False
+            if folded(l[1], r[1]) and l[1][2] in lines:
+                return sign
+    return None
 
 
 def _ext_name(ctx, f, call):
@@ -596,7 +830,8 @@ def _field(ctx, call, kind, name):
 def run(ctx):
     rep = ctx.rep
     rep.explanation = (
-        "Static analysis of c2.parse_raw_http by symbolic evaluation (flow-sensitive reaching definitions, partition components, "
+        "Static analysis of c2.parse_raw_http by symbolic evaluation (flow-sensitive reaching definitions, partition components - "
+        "also when spelled as find() with a fall-back to the length plus slicing -, "
         "tuple packing, loops/comprehensions/dict() normalised to one mapping form): every constructed message gets the tail after "
         "the first CRLFCRLF of the unmodified argument as body, the start line is the first CRLF-component of the head, its "
         "whitespace tokens are only unpacked under a dominating length-3 fact and are bound to the like-named fields, "
@@ -604,7 +839,7 @@ def run(ctx):
         "': '-partition of each remaining head line, and the exception-escape set of the function is a subset of ValueError."
     )
     rep.not_decided = ["percent-decoding details (parse_qsl semantics)", "duplicate headers", "the spurious {b'': b''} header for a message without header lines (value-level)"]
-    rep.trusted_base = ["CPython ast", "bytes.partition/split semantics", "urllib.parse"]
+    rep.trusted_base = ["CPython ast", "bytes.partition/split/find/slicing semantics", "urllib.parse"]
     f = ctx.repo.func("c2.parse_raw_http")
     cfg = ctx.cfg(f)
     fv = FuncView.of(f.node)
@@ -760,9 +995,24 @@ def run(ctx):
             out.extend(_atoms(S.ev(test, owner), pol))
         return out
 
-    def len_range(st, T):
+    def cond_facts(c):
+        """facts_at the statement of expression node c, plus the tests of the conditional expressions c is an arm of."""
+        st = fv.stmt_of(c)
+        out = facts_at(st)
+        child = c
+        for anc in fv.ancestors(c):
+            if isinstance(anc, ast.stmt):
+                break
+            if isinstance(anc, ast.IfExp) and child is not anc.test:
+                out.extend(_atoms(S.ev(anc.test, st), child is anc.body))
+            child = anc
+        return out
+
+    def len_range(st, T, at=None):
         lo = hi = None
-        for atom, pol in facts_at(st):
+        if all(a[0] == "meth" and a[1] in ("split", "rsplit") and a[3] and a[3][0] != ("const", None) for a in _alts(T)):
+            lo = 1   # lemma: splitting at an explicit separator yields at least one piece (only whitespace split can yield none)
+        for atom, pol in (cond_facts(at) if at is not None else facts_at(st)):
             lf = _len_fact(atom, pol)
             if lf is not None and lf[0] == T:
                 if lf[1] is not None:
@@ -809,9 +1059,10 @@ def run(ctx):
             if not any(_is_split(a) for a in _alts(T)):
                 continue
             sites += 1
-            lo, hi = len_range(st, T)
+            lo, hi = len_range(st, T, n)
             ok = lo is not None and (lo > i if i >= 0 else lo >= -i)
-            ctx.ob("R2", "DOM", f, f"start-line token [{i}]", ok, f"the access to element {i} of {_show(T)} is dominated by length facts {lo}..{hi}", n)
+            what = "start-line token" if all(_is_ws_split(a) is not None for a in _alts(T)) else "piece of a separator split"
+            ctx.ob("R2", "DOM", f, f"{what} [{i}]", ok, f"the access to element {i} of {_show(T)} is dominated by length facts {lo}..{hi}", n)
     if sites:
         ctx.rep.count("start_line_unpacks", sites, floor=2)
     else:
@@ -822,23 +1073,12 @@ def run(ctx):
         ctx.ob("R2", "EXIT", f, src(r)[:50], raise_class(r) == "ValueError", f"malformed start line raises {raise_class(r)}", r)
 
     # ---- R4: the kind of message constructed is selected by the case-insensitive HTTP/ prefix of the start line
-    def cond_facts(c):
-        st = fv.stmt_of(c)
-        out = facts_at(st)
-        child = c
-        for anc in fv.ancestors(c):
-            if isinstance(anc, ast.stmt):
-                break
-            if isinstance(anc, ast.IfExp) and child is not anc.test:
-                out.extend(_atoms(S.ev(anc.test, st), child is anc.body))
-            child = anc
-        return out
-
     for kind, want in (("HttpResponse", True), ("HttpRequest", False)):
         for c in ctors[kind]:
             facts = cond_facts(c)
-            pref = [pol for a, pol in facts if _is_prefix_test(a, lines)]
-            others = [a for a, pol in facts if not _is_prefix_test(a, lines) and _len_fact(a, pol) is None and any(_contains(a, l) for l in lines)]
+            # polarity of the fact "the start line has the prefix": a `!=` atom holding with polarity p states it with not p
+            pref = [pol == _prefix_test(a, lines) for a, pol in facts if _prefix_test(a, lines) is not None]
+            others = [a for a, pol in facts if _prefix_test(a, lines) is None and _len_fact(a, pol) is None and any(_contains(a, l) for l in lines)]
             where = "under" if want else "outside"
             if want in pref and (not want) not in pref:
                 ctx.ob("R4", "AGREE", f, f"return {kind}", True, f"{kind} is constructed {where} the case-insensitive `HTTP/` prefix test on the start line", c)
